@@ -26,17 +26,21 @@ def tweak_threads(rng, w, i):
 def tweak_resize(rng, w, i):
     w.resize = i % 3 != 2
 
+# judged on the implementation's outcome alone (the run must return): the model would have to materialise gigabytes of
+# padding zeros, or is quadratic in the number of table entries (list-based maps) where the real code uses hash maps
+NOT_MODELLED = ("enormous declared length", "many segments in one piece")
+
 def run_worlds(worlds, jobs=None):
     jobs = jobs or C.NCPU
     with cf.ThreadPoolExecutor(max_workers=jobs) as ex:
         results = list(ex.map(W.execute, worlds))
     # Worlds declaring lengths no machine can allocate are outside the model (it would have to materialise the
     # padding zeros): they are judged on the implementation's outcome alone — the run must return, not abort.
-    modelled = [r for r in results if r.world.tag != "enormous declared length"]
+    modelled = [r for r in results if r.world.tag not in NOT_MODELLED]
     ans = iter(C.run_model([r.line for r in modelled]))
     answers = []
     for r in results:
-        if r.world.tag == "enormous declared length":
+        if r.world.tag in NOT_MODELLED:
             bad = r.result in ("panic", "abort", "timeout")
             answers.append("agree " + ("PROPFAIL:c16-" + r.result if bad else "prop-ok") + " not-modelled")
         else:
@@ -245,7 +249,8 @@ PROPS = {
     "C15": dict(module="TB.Props.C15", theorems=["C15_sum", "C15_run", "C15_dedup"], clauses=["c15-"], worlds=lambda t, s: worlds_default(t, s, "c15", 300, 6000, tweak_threads),
                 runner=lambda ws: run_with_cli(ws, 60 if len(ws) <= 1000 else 600), with_bin=True),
     "C16": dict(module="TB.Props.C16", theorems=["C16_empty", "C16_validate", "C16_piece_total_partial"], clauses=["c16-", "c03-"],
-                worlds=lambda t, s: [W.gen_world_short_match(Rng(s, "c16-short", i)) for i in range(6)]
+                worlds=lambda t, s: [W.gen_world_many_segments(Rng(s, "c16-segs", i), n) for i, n in enumerate([3000, 30000] if t == "quick" else [3000, 30000, 60000])]
+                                    + [W.gen_world_short_match(Rng(s, "c16-short", i)) for i in range(6)]
                                     + [W.gen_world_sparse_candidate(Rng(s, "c16-sparse", i)) for i in range(6)]
                                     + [W.gen_world_c16(Rng(s, "c16", i), i) for i in range(400 if t == "quick" else 8000)],
                 runner=lambda ws: run_with_cli(ws, 66 if len(ws) <= 1000 else 660), with_bin=True),
